@@ -84,6 +84,26 @@ fn cursor_routes<S: ReadableShape + Dump>(prefix: &str, shp: &[u8], shx: &[u8], 
             ShapeReader::with_shx(c(shp), c(shx)).map_err(e).and_then(|r| r.read().map(|v| v.iter().map(|s| s.d()).collect()).map_err(e)),
         ));
     }
+    // the same bytes through sources that hand out a few bytes per read call (a pipe, a socket) and
+    // through a BufReader whose capacity is no multiple of anything in the format
+    let k = [1usize, 3, 7, 8, 13, 100][shp.len() % 6];
+    let short = |b: &[u8]| crate::iomon::Src::chunked(b.to_vec(), crate::iomon::Chunking::Fixed(k));
+    out.push((
+        format!("{}/seq/idx/short-reads", prefix),
+        ShapeReader::with_shx(short(shp), short(shx)).map_err(e).and_then(|mut r| collect(r.iter_shapes_as::<S>(), n)),
+    ));
+    out.push((
+        format!("{}/nth/idx/short-reads", prefix),
+        ShapeReader::with_shx(short(shp), short(shx)).map_err(e).and_then(|mut r| nth_all(n, |i| r.read_nth_shape_as::<S>(i))),
+    ));
+    out.push((
+        format!("{}/seq/noidx/bufreader37", prefix),
+        ShapeReader::new(std::io::BufReader::with_capacity(37, c(shp))).map_err(e).and_then(|mut r| collect(r.iter_shapes_as::<S>(), n)),
+    ));
+    out.push((
+        format!("{}/nth/idx/bufreader8191", prefix),
+        ShapeReader::with_shx(std::io::BufReader::with_capacity(8191, c(shp)), c(shx)).map_err(e).and_then(|mut r| nth_all(n, |i| r.read_nth_shape_as::<S>(i))),
+    ));
     // both reading routes of the property on ONE reader: every record by index, then all of them in sequence
     out.push((
         format!("{}/nth-then-seq/idx/cursor", prefix),
